@@ -9,7 +9,7 @@
 (* Logged events and the actions they are bound to:                        *)
 (*   Create -> CreateOS        Send k -> ClientSend (k = next index)       *)
 (*   Start k -> HStart(k)      Pass k -> HYield(k)   Emitted k -> HEmit(k) *)
-(*   Wrote k -> HWrote(k)      End k  -> (handler k has returned)          *)
+(*   Wrote k -> HWrote(k)      End k  -> HEnd(k)                           *)
 (*   Reply k -> ClientReply(k) Quiescent P -> Stuck /\ Unanswered = P      *)
 (* Not logged (silent): the socket reader, the dispatcher's first run and  *)
 (* its take/lookup/spawn step, every lock acquisition, the reply write.    *)
@@ -73,7 +73,7 @@ T_Start  == IsEv("Start") /\ HStart(K)
 T_Pass   == IsEv("Pass") /\ HYield(K)
 T_Emit   == IsEv("Emitted") /\ HEmit(K)
 T_Wrote  == IsEv("Wrote") /\ HWrote(K)
-T_End    == IsEv("End") /\ pc[K] = "ended" /\ UNCHANGED vars
+T_End    == IsEv("End") /\ HEnd(K)
 T_Reply  == IsEv("Reply") /\ Ev[l].ok /\ ClientReply(K)
 T_Quiet  == IsEv("Quiescent") /\ Stuck /\ Unanswered = ToSet(Ev[l].pending) /\ UNCHANGED vars
 T_Done   == /\ l = Len(Ev) + 1
